@@ -57,6 +57,63 @@ def run(rep, tier, seed):
     rep.cov["rule"] = ("every edge of the TLC state graph of ObjectQueueSeq/QueueConc is executed on the real "
                        "ObjectQueue; a case is one distinct (state, operation) edge")
     seq_part(rep, tier)
+    conc_part(rep, tier)
     rep.cov["distinct_nontrivial"] = sum(m["edges"] for m in rep.cov.get("m1", []))
     rep.assumptions += ["projection reads private members (-fno-access-control)",
                         "Inf models numeric_limits<uint32_t>::max()"]
+
+
+CONC_CFG = """SPECIFICATION %(spec)s
+CONSTANTS Configs <- MCConfigs
+INVARIANTS FifoExactlyOnce CapacityRespected NullLast WaitersJustified DoneDeliveredAll DeadlockFree
+PROPERTIES EofExact %(props)s
+VIEW View
+%(edge)s
+CHECK_DEADLOCK FALSE
+"""
+
+
+def fmt_conc(a):
+    if a["op"] == "init":
+        g = a["arg"]
+        return "init %d %d %s %d" % (g["n"], g["cap"], g["scen"], g["k"])
+    return "%s 0" % a["op"]
+
+
+def conc_part(rep, tier):
+    if tier == "quick":
+        grid = [(n, c, s, k) for n in (0, 2, 3) for c in (1, 2) for s, k in
+                (("abort", 0), ("ends", 0), ("setsize", 1), ("none", 0))]
+    else:
+        grid = [(n, c, s, k) for n in (0, 1, 2, 3, 4) for c in (1, 2, 3) for s, k in
+                (("abort", 0), ("ends", 0), ("setsize", 0), ("setsize", 2), ("setsize", 4), ("none", 0))]
+    exes = vlib.build("sched", ["drv_oq_conc"])
+    recs = ", ".join('[n |-> %d, cap |-> %d, scen |-> "%s", k |-> %d]' % g for g in grid)
+    mc = vlib.write_mc("MC_QueueConc_" + tier, "QueueConc", "MCConfigs == {%s}" % recs)
+    cfg = write_cfg("QueueConc_%s.cfg" % tier, CONC_CFG % dict(
+        spec="Spec", props="", edge="ACTION_CONSTRAINT EdgeLog\nCONSTRAINT InitLog"))
+    res = vlib.run_tlc(mc, cfg, "c16_conc_" + tier, timeout=900)
+    vlib.tlc_must_pass(res, "QueueConc safety")
+    rep.add_tlc(res)
+    # liveness (abort releases every waiter; declared end reached => everybody finishes), weak fairness
+    cfg2 = write_cfg("QueueConc_%s_live.cfg" % tier, CONC_CFG % dict(spec="FairSpec", props="Termination", edge=""))
+    res2 = vlib.run_tlc(mc, cfg2, "c16_conc_live_" + tier, timeout=900)
+    vlib.tlc_must_pass(res2, "QueueConc liveness")
+    rep.add_tlc(res2)
+    paths, stats = vlib.path_cover(res["lines"])
+    agg = vlib.replay_paths(exes["drv_oq_conc"], paths, fmt_conc, "c16_conc")
+    rep.cov["evaluations"] += agg["steps"]
+    rep.cov["traces_validated_against_impl"] += agg["paths"]
+    rep.cov.setdefault("m1", []).append(dict(spec="QueueConc", configs=len(grid), **stats,
+                                            replayed_paths=agg["paths"], replayed_steps=agg["steps"]))
+    if agg["crashed"]:
+        rep.violation("conc:crash", "driver crashed: %s" % agg["crashed"][0], agg["crashed"][0])
+    elif agg["mismatches"]:
+        rep.violation("conc:mismatch", "real ObjectQueue under the scheduler leaves the spec graph: %s"
+                      % agg["first"], dict(first=agg["first"]))
+    elif agg["paths"] != stats["paths"]:
+        raise vlib.ToolError("replayed %d of %d paths" % (agg["paths"], stats["paths"]))
+    if paths:
+        p = paths[-1]
+        rep.cov["samples"].append(dict(kind="M1 path (QueueConc)", config=p[0]["arg"],
+                                       threads=[vlib.json.loads(a)["op"] for a, _ in p[2]][:40]))
